@@ -137,11 +137,11 @@ theorem preParse_nohang_ge {p : P} {L : Nat} (nd : Node) (s : List Char) (hb : B
 
 /-- what `andRest` needs of its operands, at location `loc`: while nothing has been consumed, each operand must not hang
     from `loc` on; once an operand that always consumes (`SAdv`) has been passed, the rest only from `loc + 1` on -/
-def AndOk (p : P) (isStop : Nat → Bool) : List Nat → Nat → Prop
+def AndOk (p : P) (isStop : Nat → Bool) (slen : Nat) : List Nat → Nat → Prop
   | [], _ => True
   | e :: es, loc =>
-    if isStop e then AndOk p isStop es loc
-    else NHge p e loc ∧ ((SAdv p e → ∀ x ∈ es, NHge p x (loc + 1)) ∧ (¬ SAdv p e → AndOk p isStop es loc))
+    if isStop e then AndOk p isStop slen es loc
+    else NHge p e loc ∧ ((SAdv p e → loc ≤ slen → ∀ x ∈ es, NHge p x (loc + 1)) ∧ (¬ SAdv p e → AndOk p isStop slen es loc))
 
 theorem andRest_nohang_ge' {p : P} (hadv : Adv p) (isStop : Nat → Bool) (acts : Bool) (slen : Nat) :
     ∀ es L, (∀ x ∈ es, NHge p x L) → ∀ stop loc acc, L ≤ loc → andRest p isStop acts slen es stop loc acc ≠ .hang := by
@@ -160,8 +160,8 @@ theorem andRest_nohang_ge' {p : P} (hadv : Adv p) (isStop : Nat → Bool) (acts 
       | idx => simp only; split <;> simp
       | hang => exact absurd h0 (hes x (by simp) _ hL _ _)
 
-theorem AndOk.mono {p : P} {isStop : Nat → Bool} : ∀ {es : List Nat} {loc loc' : Nat}, AndOk p isStop es loc → loc ≤ loc' →
-    AndOk p isStop es loc' := by
+theorem AndOk.mono {p : P} {isStop : Nat → Bool} {slen : Nat} : ∀ {es : List Nat} {loc loc' : Nat},
+    AndOk p isStop slen es loc → loc ≤ loc' → AndOk p isStop slen es loc' := by
   intro es
   induction es with
   | nil => intro _ _ _ _; trivial
@@ -172,12 +172,13 @@ theorem AndOk.mono {p : P} {isStop : Nat → Bool} : ∀ {es : List Nat} {loc lo
     · rename_i hs; simp only [hs, if_true] at h; exact ih h hl
     · rename_i hs
       simp only [hs] at h
-      have h' : NHge p x loc ∧ ((SAdv p x → ∀ y ∈ es, NHge p y (loc + 1)) ∧ (¬ SAdv p x → AndOk p isStop es loc)) := by
+      have h' : NHge p x loc ∧ ((SAdv p x → loc ≤ slen → ∀ y ∈ es, NHge p y (loc + 1)) ∧
+          (¬ SAdv p x → AndOk p isStop slen es loc)) := by
         simpa using h
-      exact ⟨h'.1.mono hl, fun hs' y hy => (h'.2.1 hs' y hy).mono (by omega), fun hs' => ih (h'.2.2 hs') hl⟩
+      exact ⟨h'.1.mono hl, fun hs' hle y hy => (h'.2.1 hs' (by omega) y hy).mono (by omega), fun hs' => ih (h'.2.2 hs') hl⟩
 
-theorem andRest_nohang_ge {p : P} (hadv : Adv p) (isStop : Nat → Bool) (acts : Bool) (slen : Nat) :
-    ∀ es loc, AndOk p isStop es loc → ∀ stop acc, andRest p isStop acts slen es stop loc acc ≠ .hang := by
+theorem andRest_nohang_ge {p : P} (hadv : Adv p) (isStop : Nat → Bool) (acts : Bool) (slen : Nat) (hb : BndAll slen p) :
+    ∀ es loc, AndOk p isStop slen es loc → ∀ stop acc, andRest p isStop acts slen es stop loc acc ≠ .hang := by
   intro es
   induction es with
   | nil => intro _ _ stop acc; simp [andRest]
@@ -191,7 +192,8 @@ theorem andRest_nohang_ge {p : P} (hadv : Adv p) (isStop : Nat → Bool) (acts :
       exact ih loc hok _ _
     · rename_i hs
       simp only [hs] at hok
-      have hok' : NHge p x loc ∧ ((SAdv p x → ∀ y ∈ es, NHge p y (loc + 1)) ∧ (¬ SAdv p x → AndOk p isStop es loc)) := by
+      have hok' : NHge p x loc ∧ ((SAdv p x → loc ≤ slen → ∀ y ∈ es, NHge p y (loc + 1)) ∧
+          (¬ SAdv p x → AndOk p isStop slen es loc)) := by
         simpa using hok
       cases h0 : p x loc acts true with
       | ok l' ts =>
@@ -199,7 +201,8 @@ theorem andRest_nohang_ge {p : P} (hadv : Adv p) (isStop : Nat → Bool) (acts :
         have hge := hadv _ _ _ _ _ _ h0
         by_cases hs' : SAdv p x
         · have hl' := hs' _ _ _ _ _ h0
-          exact andRest_nohang_ge' hadv isStop acts slen es (loc + 1) (hok'.2.1 hs') _ _ _ (by omega)
+          have hu := hb.ok_le h0
+          exact andRest_nohang_ge' hadv isStop acts slen es (loc + 1) (hok'.2.1 hs' (by omega)) _ _ _ (by omega)
         · exact ih l' ((hok'.2.2 hs').mono hge) _ _
       | fail c l' => simp only; split <;> simp
       | idx => simp only; split <;> simp
@@ -207,8 +210,8 @@ theorem andRest_nohang_ge {p : P} (hadv : Adv p) (isStop : Nat → Bool) (acts :
 
 /-- `And`: the first operand is parsed unconditionally (never skipped as an `_ErrorStop`) -/
 theorem andImpl_nohang_ge {p : P} (hadv : Adv p) (isStop : Nat → Bool) (acts : Bool) (slen : Nat) (e0 : Nat)
-    (rest : List Nat) (loc : Nat) (h0 : NHge p e0 loc)
-    (hs : SAdv p e0 → ∀ y ∈ rest, NHge p y (loc + 1)) (hn : ¬ SAdv p e0 → AndOk p isStop rest loc) :
+    (rest : List Nat) (loc : Nat) (hb : BndAll slen p) (h0 : NHge p e0 loc)
+    (hs : SAdv p e0 → loc ≤ slen → ∀ y ∈ rest, NHge p y (loc + 1)) (hn : ¬ SAdv p e0 → AndOk p isStop slen rest loc) :
     andImpl p isStop acts slen (e0 :: rest) loc ≠ .hang := by
   unfold andImpl
   simp only
@@ -218,8 +221,9 @@ theorem andImpl_nohang_ge {p : P} (hadv : Adv p) (isStop : Nat → Bool) (acts :
     have hge := hadv _ _ _ _ _ _ h1
     by_cases hs' : SAdv p e0
     · have := hs' _ _ _ _ _ h1
-      exact andRest_nohang_ge' hadv isStop acts slen rest (loc + 1) (hs hs') _ _ _ (by omega)
-    · exact andRest_nohang_ge hadv isStop acts slen rest l ((hn hs').mono hge) _ _
+      have hu := hb.ok_le h1
+      exact andRest_nohang_ge' hadv isStop acts slen rest (loc + 1) (hs hs' (by omega)) _ _ _ (by omega)
+    · exact andRest_nohang_ge hadv isStop acts slen hb rest l ((hn hs').mono hge) _ _
   | fail c l => simp
   | idx => simp
   | hang => exact absurd h1 (h0 _ (Nat.le_refl _) _ _)
